@@ -152,7 +152,14 @@ fn build_response(req: &Message<Vec<u8>>, ask: &Ask, j: u32) -> domain::base::me
             }
         }
     }
-    if ask.o > 0 {
+    if ask.o == 3 {
+        // The service marks its answer as truncated itself (it may have cut
+        // it down to some size of its own liking): whatever it says, what
+        // goes out over UDP respects the requester's limit.
+        sim::stat("probe.service_sets_tc_itself");
+        ad.header_mut().set_tc(true);
+    }
+    if ask.o == 1 || ask.o == 2 {
         // The service answers with an OPT record of its own (behind whatever
         // it put into the additional section): the middleware has to take it
         // out again for a client without EDNS, or to merge its own options
@@ -426,7 +433,7 @@ fn gen_ask(k: u32, udp: bool) -> Ask {
         e = 5 + sim::draw("ask.plain_slow", 2) as u32;
     }
     let p = if sim::chance("ask.other_section", 1, 5) { 1 + sim::draw("ask.section", 2) as u32 } else { 0 };
-    let o = if sim::chance("ask.own_opt", 1, 6) { 1 + sim::draw("ask.own_opt_kind", 2) as u32 } else { 0 };
+    let o = if sim::chance("ask.own_opt", 1, 6) { 1 + sim::draw("ask.own_opt_kind", 3) as u32 } else { 0 };
     Ask { k, n, s, m, d, e, p, o }
 }
 
